@@ -51,6 +51,9 @@ package latch
 //@   ensures locked: result == acquireLocked ==> find != nil && find.value != nil && find.value == old(find.value) && lock.acquiredCount == old(lock.acquiredCount) &&
 //@       len(latch.waiting) == old(len(latch.waiting)) + 1 && latch.waiting[len(latch.waiting)-1] == lock
 //@   ensures kind: result == acquireSuccess || result == acquireStale || result == acquireLocked
+// The key's node is looked up in the list as it is AFTER the in-line recycle (which may unlink free nodes): a node found
+// before it could already be unlinked when the lock is granted on it, and the next requester of the key would be granted too.
+//@   at call(recycle) assert before: !defined(find)
 //@   ensures keymatch: find != nil ==> find.key == old(lock.keys[lock.acquiredCount])
 
 // acquire takes the slots strictly in index order and stops at the first slot that is not granted.
